@@ -333,7 +333,11 @@ class isoparser(object):
 
         # Now add the specific number of weeks and days to get what we want
         week_offset = (week - 1) * 7 + (day - 1)
-        return week_1 + timedelta(days=week_offset)
+        result = week_1 + timedelta(days=week_offset)
+        if week == 53 and result.isocalendar()[1] != 53:
+            # Only years starting (or leap years ending) on a Thursday have 53 weeks
+            raise ValueError('Invalid week: {}'.format(week))
+        return result
 
     def _parse_isotime(self, timestr):
         len_str = len(timestr)
